@@ -356,6 +356,41 @@ func c13Inputs(c *fw.Ctx, i int, s *srv.Server, bgName string) []c13Input {
 			time.Sleep(30 * time.Millisecond)
 			return nil
 		}})
+		out = append(out, c13Input{Class: "udp/rtcp-to-partially-set-up-pub-session", Desc: "sender reports for either track (SSRC 0 = never seen, 7, random) to the RTCP port of a UDP RTSP publisher that set up only one of its two tracks", Run: func(s *srv.Server) error {
+			for only := 0; only < 2; only++ {
+				rc, err := ref.DialRtsp(s.RtspAddr(), 5*time.Second)
+				if err != nil {
+					return err
+				}
+				ctl := []string{"streamid=0", "streamid=1"}[only : only+1]
+				if err := rc.Announce(url(fmt.Sprintf("%s_p%d", name, only)), goodSdp(r), 1, ctl, true, 5*time.Second); err != nil {
+					rc.Close()
+					continue
+				}
+				// media of both payload types arrives on the one RTP port that exists (lal dispatches
+				// by payload type, not by socket), then sender reports for each SSRC
+				seq := uint16(1)
+				for _, ssrc := range []uint32{0, 7, 0x2222, r.Uint32()} {
+					sr := []byte{0x80, 200, 0, 6, byte(ssrc >> 24), byte(ssrc >> 16), byte(ssrc >> 8), byte(ssrc), 1, 2, 3, 4, 5, 6, 7, 8, 0, 0, 0, 9, 0, 0, 0, 1, 0, 0, 0, 2}
+					rc.SendUdp(0, true, sr)
+					for _, pt := range []uint8{96, 97} {
+						pl := gen.VideoFrame(r, 1, 1, true, 0, 60)[9:]
+						if pt == 97 {
+							pl = append([]byte{0, 16, 0, 20 << 3}, make([]byte, 20)...)
+						}
+						for k := 0; k < 3; k++ {
+							rc.SendUdp(0, false, ref.BuildRtp(ref.RtpPkt{PT: pt, Seq: seq, Ts: uint32(seq) * 1000, Ssrc: ssrc, Marker: true, Payload: pl}))
+							seq++
+						}
+						time.Sleep(2 * time.Millisecond)
+						rc.SendUdp(0, true, sr)
+					}
+				}
+				time.Sleep(30 * time.Millisecond)
+				rc.Close()
+			}
+			return nil
+		}})
 		out = append(out, c13Input{Class: "udp/rtp-rtcp-to-sub-session", Desc: "hostile datagrams to the server ports of a UDP RTSP subscriber", Run: func(s *srv.Server) error {
 			rc, err := ref.DialRtsp(s.RtspAddr(), 5*time.Second)
 			if err != nil {
